@@ -180,9 +180,12 @@ void World::exec_op(const Op &op) {
 		std::string how = op.a.gets("how", "fin");
 		cl->client_closed = true;
 		if (how == "fin") cl->eof = true;
-		else if (how == "rst") { cl->rx_err = ECONNRESET; }
+		else if (how == "rst") { cl->rx_err = ECONNRESET; if (cl->rx_off < cl->rx.size()) { cl->rx.resize(cl->rx_off); probe("unread_input_lost_with_reset"); } }   // a reset takes the unread input with it
 		else { cl->hup = true; cl->eof = true; }
 		cl->wr_fail_after_close = how != "fin" && plan.hdr.getb("epipe");
+		// input that the daemon has not read yet is still processed after a hang-up; with a write path that fails at once the peer's own requests would be carried out
+		// half way (profile c11x explores that with the ledger only): here the writes to such a peer are accepted and vanish, as after a FIN
+		if (how == "hup" && (cl->rx_off < cl->rx.size() || cl->chunks_queued > 0)) cl->wr_fail_after_close = false;
 		// a peer that is gone answers the next segment with a reset: the first few writes are still accepted, later ones fail with EPIPE
 		if (op.a.has("epipe_after")) { cl->wr_fail_after_close = true; cl->wr_ok_left = (int)op.a.geti("epipe_after", 0); }
 		if (how != "fin" || op.a.has("epipe_after")) { cl->faulty = true; cl->expq.clear(); } // the client cannot observe anything any more
